@@ -304,7 +304,7 @@ def _bad_op(rng, sh, k, corrupt_fn=None):
         if v == "gfa1":
             fld = rng.choice(["from_segment", "to_segment", "from_orient", "to_orient", "overlap", "segment_names"])
         else:
-            fld = rng.choice(["sid1", "sid2", "beg1", "end1", "items", "sid", "beg2"])
+            fld = rng.choice(["sid1", "sid2", "beg1", "end1", "items", "sid", "beg2", "external", "external"])
         tgt = {"text": rng.choice(sh.anon)} if (sh.anon and rng.random() < 0.5) else {"id": rng.choice(ids or ["x"])}
         op = {"op": "set_field", "field": fld, "value": rng.choice(["A", "+", "-", "*", "3M", "A+", "0"])}
         op.update(tgt)
